@@ -43,11 +43,13 @@ def base_model(E, sym_reactions=("R1",), sym_coef=True, groups=True):
     m = Model("bk")
     A = Metabolite("A", compartment="c", name="met A", formula="C1H2", charge=0)
     Bm = Metabolite("B", compartment="c", name="met B")
+    P = Metabolite("P", compartment="c", name="met P")      # used by R3 only: removing R3 orphans it
     A.notes = {"n": "a"}
     A.annotation = {"kegg": ["C1"]}
     rs = {}
     for rid, st, bounds, rule in (("EX_A", {A: -1}, (-10, 10), ""), ("R1", {A: -1, Bm: 1}, (0, 10), "g1 and g2"),
-                                  ("R2", {A: -1, Bm: 1}, (0, 10), "g1 or g3"), ("DM_B", {Bm: -1}, (0, 10), "")):
+                                  ("R2", {A: -1, Bm: 1}, (0, 10), "g1 or g3"), ("DM_B", {Bm: -1}, (0, 10), ""),
+                                  ("R3", {Bm: -1, P: 1}, (0, 10), "")):
         r = Reaction(rid, name="rxn " + rid, lower_bound=bounds[0], upper_bound=bounds[1])
         st = dict(st)
         if rid in sym_reactions and sym_coef:
@@ -561,7 +563,7 @@ def op_add_reactions(E, m, S):
 
 
 def op_remove_reactions(E, m, S):
-    r = _rxn(E, m, pool=("R1", "DM_B"))
+    r = _rxn(E, m, pool=("R1", "DM_B", "R3"))
     arg = E.pick(S.tag("arg"), ["object", "id", "unknown"])
     orphans = E.flag(S.tag("remove_orphans"))
     via = E.pick(S.tag("via"), ["model", "remove_from_model"])
